@@ -101,6 +101,14 @@ Definition no_excluded_def (sd : sdecl) : bool :=
   forallb (fun fd => String.eqb (parse_def (fd_doc fd)) "" ||
                      forallb (fun n => negb (excluded_decl fd n)) (fd_names fd)) (sd_fields sd).
 
+(* an excluded field of the struct shadows nothing for shoot, but it does for Go
+   (finding K_ctor_excluded_shadow): its name must not occur below the top level *)
+Definition excluded_names (sd : sdecl) : list ident :=
+  flat_map (fun fd => filter (excluded_decl fd) (fd_names fd)) (sd_fields sd).
+Definition no_excluded_shadow (pkg : pkg_spec) (fuel : nat) (sd : sdecl) : bool :=
+  forallb (fun o => Nat.eqb (length (fst o)) 1 || negb (existsb (String.eqb (occ_name o)) (excluded_names sd)))
+          (all_occ pkg fuel (self_inst sd)).
+
 (* constraints are identifiers (finding K_ctor_generic_constraint) *)
 Definition ident_constraints (sd : sdecl) : bool :=
   forallb (fun g => match tp_con g with CIdent _ => true | COther _ => false end) (sd_tparams sd).
@@ -145,4 +153,5 @@ Definition param_names_ok (pkg : pkg_spec) (fuel : nat) (sd : sdecl) : bool :=
 Definition c02_guard (pkg : pkg_spec) (fuel : nat) (sd : sdecl) : bool :=
   depth_bounded pkg fuel sd && wf_structs pkg fuel sd && unambiguous pkg fuel sd &&
   no_embedded_nonstruct pkg fuel sd && no_promoted_excluded pkg fuel sd && no_excluded_def sd &&
+  no_excluded_shadow pkg fuel sd &&
   ident_constraints sd && no_double_ptr sd && param_names_ok pkg fuel sd.
